@@ -39,6 +39,8 @@ def run(F, rep, tier="quick", extra=None, only=None):
     check_fmt(F, rep)
     check_pack(F, rep)
     check_named(F, rep)
+    from . import aliasrule
+    aliasrule.check(F, rep, "C12", 6)
     return {"level": "other"}
 
 
